@@ -5,7 +5,7 @@ import codec_common as cc
 CONFIG = {
     "lean_props": "J5V/Props/C08.lean",
     "extract": ["codec"],
-    "streams": [cc.ENC(12000, 240000)],
+    "streams": [cc.ENC(64000, 1000000)],
     "trusted_base": cc.TRUSTED,
     "assumptions": cc.ASSUMPTIONS,
 }
